@@ -27,17 +27,28 @@ class C20(Check):
     }
     tiers = {"quick": {"runs": 30000, "wall": 80}, "thorough": {"runs": 3000000, "wall": 1200}}
     expected_probes = ["w1:out-of-order-completion", "w1:declined-with-work-left", "w1:budget-exhausted",
-                       "w1:error-with-jobs-in-flight"]
+                       "w1:error-with-jobs-in-flight",
+                       "w3:JOB_ALREADY_EXISTS", "w3:PROGRAM_ALREADY_EXISTS", "w3:JOB_DOES_NOT_EXIST",
+                       "w3:PROGRAM_DOES_NOT_EXIST", "w3:break-with-two-in-flight", "w3:T2-reader-death",
+                       "w3:cancel-before-request-queued", "w3:cancel-with-request-out", "w3:cancel-rpc-sent",
+                       "w3:reply-for-stale-request", "w3:submit-after-stop", "w3:result-after-retry"]
 
     def setup(self) -> None:
         from simkit import repoenv
         import cirq
         repoenv.assert_working_tree(cirq)
-        from checks import c20_w1  # noqa: F401
+        import cirq_google
+        repoenv.assert_working_tree(cirq_google)
+        from checks import c20_w1, c20_w3
         self._w1 = c20_w1
+        self._w3 = c20_w3
 
     def run_one(self, tape, ctx: Ctx) -> None:
-        self._w1.run(tape, ctx)
+        w = tape.weighted([3, 6], "workload")
+        if w == 0:
+            self._w1.run(tape, ctx)
+        else:
+            self._w3.run(tape, ctx)
 
 
 CHECK = C20()
